@@ -20,6 +20,13 @@ Definition d_c20 (op : string) (a : val) : option val :=
           Some (VL [VZ (stats_num_chunks (sx, sy, sz_) (cx, cy, cz));
                     VZ (stats_size_bytes (sx, sy, sz_) it ch)])
       | _, _, _, _ => Some bad end
+  | "totals", VL rows =>       (* rows: [[chunks, bytes], ...] as printed per scale *)
+      let get (r : val) : option (Z * Z) :=
+        match r with VL [a; b] => match getZ a, getZ b with Some a, Some b => Some (a, b) | _, _ => None end
+                   | _ => None end in
+      match all_some (map get rows) with
+      | Some rs => let t := stats_totals rs in Some (VL [VZ (fst t); VZ (snd t)])
+      | None => Some bad end
   | "grid", VL [sz; cs] =>     (* enumerates the grid: small sizes only *)
       match getNs sz, getNs cs with
       | Some [sx; sy; sz_], Some [cx; cy; cz] =>
